@@ -296,8 +296,8 @@ def parse_log(path, names):
     with open(path) as f:
         for line in f:
             m = re.match(r'processed (\d+) read pairs', line)
-            if m:
-                processed, logged = int(m.group(1)), True
+            if m:           # one line per lane (call of demultiplex): the library total is their sum
+                processed, logged = (processed if logged else 0) + int(m.group(1)), True
             parts = line.rstrip('\n').split('\t')
             if len(parts) == 2 and parts[0] in names and parts[1].isdigit():
                 ylds[names.index(parts[0])] += int(parts[1])
@@ -326,14 +326,51 @@ def oracle(strategies, pairs, lib):
     return acc
 
 
-def run_api(loader, strategies, pairs, cfg, workdir):
-    """demux.py lines 430-503 for one library / one lane, with the loader of this process"""
+def relabel(pairs, offset, times=1):
+    """the same records under other ids (tokens offset+1 ..), optionally repeated: a *different* library that touches
+    exactly the same cells"""
+    out = []
+    for t in range(times):
+        for p in pairs:
+            pid = offset + len(out) + 1
+            out.append(dict(p, id=pid, m=[dict(r, h=header(p['hdr'], TOKEN0 + pid, k)) for k, r in enumerate(p['m'])]))
+    return out
+
+
+def split_lanes(pairs, cfg):
+    if cfg.get('lanes', 1) < 2:
+        return [pairs]
+    at = max(0, min(len(pairs), cfg.get('lane_split', len(pairs) // 2)))
+    return [pairs[:at], pairs[at:]]
+
+
+def consumed(pairs, cfg):
+    return pairs if not cfg['maxpairs'] else pairs[:cfg['maxpairs']]
+
+
+def prior_passes(pairs, cfg):
+    """history before the run under test: [(pairs, maxpairs)] demultiplexed earlier into the SAME output prefix.
+    Both histories only touch cells that the run under test writes again (a per-cell file of a cell that the later run never
+    sees is left alone by the code and is not part of this property)."""
+    if cfg.get('prior') == 'testrun':       # demux.py -n k to have a look, then the real run
+        return [(pairs, cfg['prior_k'])]
+    if cfg.get('prior') == 'other':         # another, longer library with the same cells
+        return [(relabel(consumed(pairs, cfg), len(pairs), times=2), 0)]
+    return []
+
+
+def api_pass(loader, strategies, pairs, cfg, maxpairs, d, target_dir, tag):
+    """demux.py lines 455-503: one complete demultiplexing operation (all lanes of one library) into target_dir"""
     from singlecellmultiomics.fastqProcessing.fastqHandle import FastqHandle
+    import collections
     lib = cfg['lib']
-    d = tempfile.mkdtemp(prefix='run_', dir=workdir)
-    files = write_inputs(d, lib, pairs, cfg['mates'], gz=cfg.get('gz', True))
-    target_dir = os.path.join(d, 'out', lib)
-    os.makedirs(target_dir)
+    lanes = []
+    for i, part in enumerate(split_lanes(pairs, cfg)):
+        ld = os.path.join(d, '%s_lane%d' % (tag, i))
+        os.makedirs(ld)
+        lanes.append(write_inputs(ld, lib, part, cfg['mates'], gz=cfg.get('gz', True)))
+    if not os.path.exists(target_dir):
+        os.makedirs(target_dir)
     paired_end = cfg['mates'] == 2
     handle = FastqHandle(f'{target_dir}/demultiplexed', paired_end, single_cell=cfg['percell'], maxHandles=cfg.get('fh', 500))
     reject_handle = FastqHandle(f'{target_dir}/rejects', paired_end) if cfg['hasRej'] else None
@@ -344,15 +381,21 @@ def run_api(loader, strategies, pairs, cfg, workdir):
     log_location = os.path.abspath(f'{target_dir}/demultiplexing.log')
     log_handle = open(log_location, 'w')
     log_handle.write('driver\n')
-    raised, processed, ylds = '', -1, {}
-    sink = io.StringIO()
+    raised, total, ylds = '', 0, collections.Counter()
     try:
-        with contextlib.redirect_stdout(sink):
-            processed, ylds = loader.dmx.demultiplex(files, strategies=strategies, targetFile=handle, rejectHandle=reject_handle,
-                                                     log_handle=log_handle, library=lib,
-                                                     maxReadPairs=None if not cfg['maxpairs'] else cfg['maxpairs'])
+        with contextlib.redirect_stdout(io.StringIO()):
+            for files in lanes:
+                if maxpairs and total >= maxpairs:
+                    break
+                processed, y = loader.dmx.demultiplex(files, strategies=strategies, targetFile=handle,
+                                                      rejectHandle=reject_handle, log_handle=log_handle, library=lib,
+                                                      maxReadPairs=None if not maxpairs else (maxpairs - total))
+                total += processed
+                ylds.update(y)
+                if maxpairs and total >= maxpairs:
+                    break
     except Exception as ex:  # a crash of the code under test is an observation
-        raised = type(ex).__name__
+        raised, total = type(ex).__name__, -1
     for h in (handle, reject_handle):
         if h is not None:
             try:
@@ -360,10 +403,25 @@ def run_api(loader, strategies, pairs, cfg, workdir):
             except Exception as ex:
                 raised = raised or 'close:' + type(ex).__name__
     log_handle.close()
-    obs = observe(target_dir, cfg, [s.shortName for s in strategies])
+    return raised, total, ylds
+
+
+def run_api(loader, strategies, pairs, cfg, workdir):
+    """the run under test (after its history, if any) through the loader of this process; sinks re-read afterwards"""
+    lib = cfg['lib']
+    d = tempfile.mkdtemp(prefix='run_', dir=workdir)
+    target_dir = os.path.join(d, 'out', lib)
+    prior_raised = ''
+    for i, (ppairs, pmax) in enumerate(prior_passes(pairs, cfg)):
+        r, _, _ = api_pass(loader, strategies, ppairs, cfg, pmax, d, target_dir, 'prior%d' % i)
+        prior_raised = prior_raised or r
+    if cfg.get('stale_dir') and not os.path.exists(target_dir):
+        os.makedirs(target_dir)           # output directory exists already (demux.py 433)
+    raised, processed, ylds = api_pass(loader, strategies, pairs, cfg, cfg['maxpairs'], d, target_dir, 'main')
     names = [s.shortName for s in strategies]
+    obs = observe(target_dir, cfg, names)
     obs.update(raised=raised, processed=int(processed), yields=[int(ylds.get(n, 0)) for n in names],
-               yields_foreign=int(sum(v for k, v in dict(ylds).items() if k not in names)))
+               yields_foreign=int(sum(v for k, v in dict(ylds).items() if k not in names)), prior_raised=prior_raised)
     shutil.rmtree(d, True)
     return obs
 
@@ -375,12 +433,27 @@ def observe(target_dir, cfg, names):
             'rej': read_sinks(target_dir, os.path.join(target_dir, 'rejects'), cfg['mates'], True) if cfg['hasRej'] else []}
 
 
-def run_cli(names, pairs, cfg, workdir):
-    """the real entry point: python -m ...demux <files> -use .. --y -o .. (in process through runpy; it loads its own barcodes)"""
+def write_inputs_illumina(d, lib, lanes, mates):
+    """<lib>_L00<k>_R<m>_001.fastq.gz : the bcl2fastq naming, one file (pair) per lane"""
+    files = []
+    for li, part in enumerate(lanes, start=1):
+        for k in range(mates):
+            p = os.path.join(d, '%s_L%03d_R%d_001.fastq.gz' % (lib, li, k + 1))
+            with gzip.open(p, 'wt') as f:
+                for pr in part:
+                    r = pr['m'][k]
+                    f.write('%s\n%s\n%s\n%s\n' % (r['h'], r['seq'], r['plus'], r['qual']))
+            files.append(p)
+    return files
+
+
+def cli_pass(names, pairs, cfg, maxpairs, d, out, tag):
     lib = cfg['lib']
-    d = tempfile.mkdtemp(prefix='cli_', dir=workdir)
-    files = write_inputs(d, lib, pairs, cfg['mates'], gz=True)
-    out = os.path.join(d, 'out')
+    ind = os.path.join(d, tag)
+    os.makedirs(ind)
+    lanes = split_lanes(pairs, cfg)
+    files = write_inputs(ind, lib, pairs, cfg['mates'], gz=True) if len(lanes) == 1 else \
+        write_inputs_illumina(ind, lib, lanes, cfg['mates'])
     argv = ['demux.py'] + files + ['-use', ','.join(names), '--y', '-o', out]
     if cfg['mates'] == 1:
         argv.append('--se')
@@ -388,8 +461,8 @@ def run_cli(names, pairs, cfg, workdir):
         argv.append('--norejects')
     if cfg['percell']:
         argv.append('--scsepf')
-    if cfg['maxpairs']:
-        argv += ['-n', str(cfg['maxpairs'])]
+    if maxpairs:
+        argv += ['-n', str(maxpairs)]
     raised = ''
     old = sys.argv
     sys.argv = argv
@@ -405,11 +478,25 @@ def run_cli(names, pairs, cfg, workdir):
         sys.argv = old
     import gc
     gc.collect()         # handles left open by a crashed run are flushed by their finalisers, as at interpreter exit
+    return raised
+
+
+def run_cli(names, pairs, cfg, workdir):
+    """the real entry point: python -m ...demux <files> -use .. --y -o .. (in process through runpy; it loads its own
+    barcodes), after its history (earlier invocations with the same -o), if any"""
+    lib = cfg['lib']
+    d = tempfile.mkdtemp(prefix='cli_', dir=workdir)
+    out = os.path.join(d, 'out')
+    prior_raised = ''
+    for i, (ppairs, pmax) in enumerate(prior_passes(pairs, cfg)):
+        prior_raised = prior_raised or cli_pass(names, ppairs, cfg, pmax, d, out, 'prior%d' % i)
+    raised = cli_pass(names, pairs, cfg, cfg['maxpairs'], d, out, 'main')
     target_dir = os.path.join(out, lib)
     obs = observe(target_dir, cfg, names) if os.path.isdir(target_dir) else {'logged': False, 'logProcessed': -1,
                                                                                 'logYields': [0] * len(names), 'tgt': [], 'rej': []}
     # the script reports its counters only through the log
-    obs.update(raised=raised, processed=obs['logProcessed'], yields=list(obs['logYields']), yields_foreign=0)
+    obs.update(raised=raised, processed=obs['logProcessed'], yields=list(obs['logYields']), yields_foreign=0,
+               prior_raised=prior_raised)
     shutil.rmtree(d, True)
     return obs
 
@@ -417,6 +504,8 @@ def run_cli(names, pairs, cfg, workdir):
 def run_event(tid, grp, entry, names, pairs, acc, cfg, obs, extra=None):
     e = {'ev': 'run', 'tid': tid, 'grp': grp, 'entry': entry, 'mates': cfg['mates'], 'hasRej': cfg['hasRej'],
          'percell': cfg['percell'], 'maxpairs': cfg['maxpairs'], 'gz': bool(cfg.get('gz', True)), 'fh': int(cfg.get('fh', 500)), 'prune': int(cfg.get('prune') or 0),
+         'prior': cfg.get('prior') or '', 'prior_k': int(cfg.get('prior_k') or 0), 'lanes': int(cfg.get('lanes', 1)),
+         'lane_split': int(cfg.get('lane_split', 0)), 'stale_dir': bool(cfg.get('stale_dir')),
          'strategies': names, 'lib': cfg['lib'], 'N': len(pairs),
          'classes': [[p['hdr'], p['content']] for p in pairs],
          'inp': [{'id': p['id'], 'h': [r['h'] for r in p['m']], 'm': [{'seq': r['seq'], 'qual': r['qual']} for r in p['m']]}
@@ -463,9 +552,22 @@ def configs(rng, lib, mates, n, full):
     out.append(dict(base, hasRej=rng.random() < 0.7, percell=True, maxpairs=0, fh=rng.choice([1, 2, 500]),
                     prune=rng.choice([0, 3, 7])))
     out.append(dict(base, hasRej=True, percell=False, maxpairs=rng.randint(1, n + 1)))
+    k1 = max(1, n)
+    # histories: an earlier run into the same output prefix (test run with a cut-off / a different, longer library),
+    # several lanes through the same handles, output directory already there, cut-off with per-cell sinks
+    out.append(dict(base, hasRej=rng.random() < 0.5, percell=True, maxpairs=0, prior='testrun', prior_k=rng.randint(1, k1),
+                    fh=rng.choice([1, 2, 500]), prune=rng.choice([0, 3, 7])))
+    out.append(dict(base, hasRej=True, percell=rng.random() < 0.5, maxpairs=rng.choice([0, rng.randint(1, k1)]), prior='other'))
+    out.append(dict(base, hasRej=rng.random() < 0.7, percell=rng.random() < 0.5, maxpairs=rng.choice([0, rng.randint(1, n + 1)]),
+                    lanes=2, lane_split=rng.choice([0, n, rng.randint(0, n)]), stale_dir=True))
+    out.append(dict(base, hasRej=rng.random() < 0.5, percell=True, maxpairs=rng.randint(1, k1), fh=rng.choice([1, 3]),
+                    prune=rng.choice([0, 2, 5])))
     if full:
-        out.append(dict(base, hasRej=False, percell=True, maxpairs=rng.randint(1, n)))
+        out.append(dict(base, hasRej=False, percell=True, maxpairs=rng.randint(1, k1)))
         out.append(dict(base, hasRej=True, percell=True, maxpairs=n, fh=rng.choice([1, 3]), prune=rng.choice([1, 2, 5, 11])))
+        out.append(dict(base, hasRej=True, percell=False, maxpairs=0, prior='testrun', prior_k=rng.randint(1, k1)))
+        out.append(dict(base, hasRej=rng.random() < 0.5, percell=True, maxpairs=rng.choice([0, rng.randint(1, k1)]), prior='other',
+                        lanes=2, lane_split=rng.randint(0, n), fh=rng.choice([1, 500]), prune=rng.choice([0, 3])))
     return out
 
 
@@ -603,6 +705,14 @@ def main():
             pairs = make_library(rng, loader, strategies, n, mates, focus=0)
             cfg = {'lib': 'CLILIB', 'mates': mates, 'hasRej': i % 3 != 2, 'percell': i % 2 == 1,
                    'maxpairs': 0 if i % 4 != 2 else rng.randint(1, n)}
+            if quick:       # the usual way of working: -n k to have a look, then the real run into the same -o, one file per cell
+                cfg.update(percell=True, prior='testrun', prior_k=rng.randint(1, n))
+            elif i % 4 == 1:
+                cfg.update(prior='testrun', prior_k=rng.randint(1, n))
+            elif i % 4 == 2:
+                cfg.update(prior='other')
+            elif i % 4 == 0 and i:
+                cfg.update(lanes=2, lane_split=rng.randint(1, n - 1), percell=True, maxpairs=rng.choice([0, rng.randint(1, n)]))
             rec.group(loader, [name], pairs, [cfg], workdir, entry='cli')
     finally:
         rec.f.close()
@@ -621,7 +731,8 @@ def replay(rec, case_path, workdir):
               'm': [{'h': h, 'seq': m['seq'], 'plus': '+', 'qual': m['qual']} for h, m in zip(p['h'], p['m'])]}
              for p, c in zip(ev['inp'], ev['classes'])]
     cfgs = [{'lib': e['lib'], 'mates': e['mates'], 'gz': e.get('gz', True), 'fh': e.get('fh', 500), 'prune': e.get('prune', 0),
-             'hasRej': e['hasRej'],
+             'prior': e.get('prior') or None, 'prior_k': e.get('prior_k', 0), 'lanes': e.get('lanes', 1),
+             'lane_split': e.get('lane_split', 0), 'stale_dir': e.get('stale_dir', False), 'hasRej': e['hasRej'],
              'percell': e['percell'], 'maxpairs': e['maxpairs']} for e in evs]
     rec.group(loader, ev['strategies'], pairs, cfgs, workdir, entry=ev.get('entry', 'api'),
               extra={'scn': ev['scn']} if 'scn' in ev else None)
